@@ -8,8 +8,8 @@
 From Coq Require Import ZArith List Bool Lia.
 From PV.Base Require Import Prim.
 From PV.Gen Require Import GenConst GenFun.
-From PV.Model Require Import Checksums.
-From PV.Proofs Require Import ChecksumsProofs ChecksumsArithProofs.
+From PV.Model Require Import Checksums Fid.
+From PV.Proofs Require Import ChecksumsProofs ChecksumsArithProofs FidProofs.
 Import ListNotations.
 Local Open Scope Z_scope.
 
@@ -27,6 +27,31 @@ Theorem C10_tag_checksum_verifies : forall tag, length tag = 16%nat -> bytes tag
 Proof. exact udf_csum_verifies. Qed.
 
 Ltac Zify.zify_post_hook ::= Z.to_euclidean_division_equations.
+
+(* File Identifier Descriptors of a directory (Model/Fid.v: the loop of _udf_assign_extents): each recorded
+   tag location is the block holding the descriptor's first byte, the area takes ceil(total/block) blocks,
+   and the deltas reported to the space accounting are the change of that ceiling *)
+Theorem C10_fid_location_is_block_of_first_byte : forall lbs lens, 0 < lbs -> fits lbs lens ->
+  fid_locations lbs lens = map (fun s => s / lbs) (starts 0 lens).
+Proof. exact fid_location_is_block_of_first_byte. Qed.
+
+Theorem C10_fid_area_blocks : forall lbs lens, 0 < lbs -> fits lbs lens -> lens <> [] ->
+  fid_blocks lbs lens = ceiling_div (Fid.zsum lens) lbs.
+Proof. exact fid_blocks_is_ceiling. Qed.
+
+Theorem C10_fid_boundary_test_is_decisive_refuted :
+  exists lens, fits 2048 lens /\ fid_walk_gt 2048 0 0 lens <> map (fun s => s / 2048) (starts 0 lens).
+Proof. exact fid_walk_gt_refuted. Qed.
+
+Theorem C10_fid_add_delta : forall lbs info n, 0 < lbs -> 0 <= info -> 0 <= n ->
+  let '(info', d) := fid_add lbs info n in
+  info' = info + udf_fid_length n /\ d = ceiling_div info' lbs - ceiling_div info lbs /\ 0 <= d.
+Proof. exact fid_add_delta. Qed.
+
+Theorem C10_fid_remove_delta : forall lbs info n, 0 < lbs -> 0 <= n -> udf_fid_length n <= info ->
+  let '(info', d) := fid_remove lbs info n in
+  info' = info - udf_fid_length n /\ d = ceiling_div info lbs - ceiling_div info' lbs /\ 0 <= d.
+Proof. exact fid_remove_delta. Qed.
 
 (* File Identifier Descriptors are padded to a multiple of four bytes and never shorter than their content *)
 Theorem C10_fid_length : forall n, 0 <= n ->
